@@ -190,7 +190,13 @@ class Stmts(Exec):
             self.setfield(st, b, name, v)
             return [(st, NORMAL)]
         if isinstance(b.t, OpaqueT) and b.t.n == 'Dyn':
-            st.trace.append(('setattr', attr)); return [(st, NORMAL)]
+            st.trace.append(('setattr', attr))
+            if getattr(getattr(self.reg, 'current_unit', None), 'dyn_attr_store', False):
+                # opt-in (loop-free units): attribute stores on abstract objects are remembered; a later read of the same
+                # attribute of a possibly aliased receiver sees them (ite chain, see getattr_)
+                from . import dyn
+                st.ghost['__dynstores'] = ((b.z, self.mangle(st, attr), dyn.dynify(self, st, v)),) + tuple(st.ghost.get('__dynstores', ()))
+            return [(st, NORMAL)]
         if isinstance(b.t, OpaqueT):
             key = b.t.n + '.__setattr__.' + attr
             m = self.reg.find_model(key)
